@@ -14,6 +14,9 @@ L_BIG = "P0.2 P1.2 P2.2 P0.2 P1.2 P2.2 F P0.2 P1.2 P2.2 F"
 L_OVL = "P0.1 P1.1 O P1.1 P3.1 O"
 L_OVL2 = "P1.1 P2.1 O P0.1 P1.1 O"
 
+# case-insensitive custom comparator over a universe with spellings it identifies ("a"/"A", "B"/"b")
+NOCASE = "B1,cmp=2,uni=5"
+
 TOGGLES = ["snappy=1", "bloom=1", "mmap=0", "reuse=1", "cache=1", "cache=2", "cmp=1", "paranoid=1"]
 
 
@@ -25,7 +28,7 @@ def c01_plan(tier):
     if tier == "quick":
         it = ["B1@4/3"] + ["B1,%s@0/2" % t for t in TOGGLES] + ["B2@0/2"]
         it += ["B1@2^" + L_DEEP, "B1,bloom=1,cache=1,mmap=0,snappy=1@2^" + L_DEEP, "B1@2^" + L_TOMB]
-        it += ["B1~rwr@0/2^" + L_OVL, "B1~rwr@0/2^" + L_OVL2, "B1~rwr@0/1^" + L_DEEP]
+        it += ["B1~rwr@0/2^" + L_OVL, "B1~rwr@0/2^" + L_OVL2, "B1~rwr@0/1^" + L_DEEP, NOCASE + "@0/2"]
     else:
         it = ["B1@5/4"] + ["B1,%s@4/3" % t for t in TOGGLES] + ["B2@3/3", "B2,snappy=1,bloom=1@3/2"]
         # full cross product of the boolean toggles at depth 2 (no dedup)
@@ -36,6 +39,7 @@ def c01_plan(tier):
                     t.append(nm)
             if len(t) >= 2:
                 it.append("B1,%s@0/2" % ",".join(t))
+        it += [NOCASE + "@4/3", NOCASE + "@2^P0.1 F P1.1 F P3.1 F P4.1 F"]
         it += ["B1~rwr@0/3^" + L_OVL, "B1~rwr@0/3^" + L_OVL2, "B1~rwr@0/2^" + L_DEEP, "B1,cmp=1~rwr@0/2^" + L_OVL, "B1~rwr@3/2"]
         for L in (L_DEEP, L_TOMB, L_SNAP, L_BIG):
             it += ["B1@3^" + L, "B1,bloom=1,cache=1,mmap=0,snappy=1@3^" + L, "B1,cmp=1@2^" + L]
@@ -44,15 +48,15 @@ def c01_plan(tier):
 
 def c06_plan(tier):
     if tier == "quick":
-        return plan(["B1@4/3", "B1,snappy=1,bloom=1@0/2", "B1@2^" + L_SNAP, "B1@2^S " + L_DEEP])
-    return plan(["B1@5/4", "B1,snappy=1,bloom=1@4/3", "B1,cmp=1@3/3", "B2@3/2", "B1@3^" + L_SNAP, "B1@3^S " + L_DEEP,
+        return plan(["B1@4/3", "B1,snappy=1,bloom=1@0/2", "B1@2^" + L_SNAP, "B1@2^S " + L_DEEP, NOCASE + "@0/2"])
+    return plan(["B1@5/4", "B1,snappy=1,bloom=1@4/3", "B1,cmp=1@3/3", "B2@3/2", NOCASE + "@3/3", "B1@3^" + L_SNAP, "B1@3^S " + L_DEEP,
                  "B1@3^P0.1 S D0 S P0.2 F", "B1,cache=1,mmap=0@3^" + L_SNAP])
 
 
 def c07_plan(tier):
     if tier == "quick":
-        return plan(["B1@3/2", "B1,cmp=1@0/2", "B1@2^" + L_DEEP, "B1@2^" + L_TOMB])
-    return plan(["B1@4/3", "B1,cmp=1@3/3", "B1,snappy=1,bloom=1,mmap=0@3/2", "B2@2/2", "B1@3^" + L_DEEP, "B1@3^" + L_TOMB,
+        return plan(["B1@3/2", "B1,cmp=1@0/2", NOCASE + "@0/2", "B1@2^" + L_DEEP, "B1@2^" + L_TOMB])
+    return plan(["B1@4/3", "B1,cmp=1@3/3", NOCASE + "@3/3", NOCASE + "@2^P0.1 F P1.1 F P3.1 P4.1", "B1,snappy=1,bloom=1,mmap=0@3/2", "B2@2/2", "B1@3^" + L_DEEP, "B1@3^" + L_TOMB,
                  "B1@3^I " + L_DEEP, "B1,cmp=1@2^" + L_DEEP, "B1@2^" + L_SNAP])
 
 
@@ -260,8 +264,8 @@ ENGINES["fault"] = "E4: fault-site enumerator over the call log of the in-memory
 
 def c14_plan(tier):
     if tier == "quick":
-        return plan(["B1@4/3", "B1,snappy=1,bloom=1@0/2", "B1,cmp=1@0/2", "B2@0/2", "B1@2^" + L_DEEP, "B1@2^" + L_BIG, "B1@2^" + L_SNAP])
-    return plan(["B1@5/4", "B1,snappy=1,bloom=1@4/3", "B1,cmp=1@4/3", "B1,reuse=1@3/3", "B2@3/2", "B1@3^" + L_DEEP, "B1@3^" + L_BIG,
+        return plan(["B1@4/3", "B1,snappy=1,bloom=1@0/2", "B1,cmp=1@0/2", NOCASE + "@0/2", "B2@0/2", "B1@2^" + L_DEEP, "B1@2^" + L_BIG, "B1@2^" + L_SNAP])
+    return plan(["B1@5/4", "B1,snappy=1,bloom=1@4/3", "B1,cmp=1@4/3", NOCASE + "@3/3", "B1,reuse=1@3/3", "B2@3/2", "B1@3^" + L_DEEP, "B1@3^" + L_BIG,
                  "B1@3^" + L_SNAP, "B1,cmp=1@3^" + L_DEEP, "B1,snappy=1,bloom=1@3^" + L_BIG])
 
 
